@@ -561,6 +561,8 @@ fn cancel_body(sc: &Scen) {
 
 /// One execution of a scenario under the controlled scheduler.
 fn scen_body(sc: &Scen) {
+    // C21: the per-handle cancellation token's operations are scheduling points (hook H3)
+    shuttle::token_points(matches!(sc.oracle, Oracle::LocalCancel));
     match sc.oracle {
         Oracle::Writer => return writer_body(sc),
         Oracle::LocalCancel => return cancel_body(sc),
